@@ -456,13 +456,21 @@ def ps_def(i):
     return z3.And(PS(z3.IntVal(0)) == 0, z3.Implies(i >= 0, PS(i + 1) == PS(i) + PSZ(i)))
 
 # decoder chain, last coder first: CHAIN(f, x, i) = result after i decoding steps
-CHAIN = z3.RecFunction("decode_chain", Folder, Blob, I, Blob)
-z3.RecAddDefinition(CHAIN, [_f, _x, _i], z3.If(_i <= 0, _x, DEC(CID(_f, NCOD(_f) - _i), CPROP(_f, NCOD(_f) - _i),
-                                                               CHAIN(_f, _x, _i - 1), USZ(_f))))
+# (uninterpreted + defining equations instantiated at 0 and at the loop index, see NUMPOS)
+CHAIN = z3.Function("decode_chain", Folder, Blob, I, Blob)
 # offset of the j-th entry of folder k inside the folder's output
-OFF = z3.RecFunction("substream_offset", I, I, I)
-z3.RecAddDefinition(OFF, [_k, _i], z3.If(_i <= 0, 0, OFF(_k, _i - 1) + z3.If(ISDIR(FINFO(FIDX(_k, _i - 1))), 0,
-                                                                               USIZE(FINFO(FIDX(_k, _i - 1))))))
+OFF = z3.Function("substream_offset", I, I, I)
+
+
+def chain_def(f, x, i):
+    return z3.And(CHAIN(f, x, z3.IntVal(0)) == x,
+                  z3.Implies(i >= 0, CHAIN(f, x, i + 1) == DEC(CID(f, NCOD(f) - (i + 1)), CPROP(f, NCOD(f) - (i + 1)), CHAIN(f, x, i), USZ(f))))
+
+
+def off_def(k, i):
+    return z3.And(OFF(k, z3.IntVal(0)) == 0,
+                  z3.Implies(i >= 0, OFF(k, i + 1) == OFF(k, i) + z3.If(ISDIR(FINFO(FIDX(k, i))), 0, USIZE(FINFO(FIDX(k, i))))))
+
 
 
 def in_off(k):
@@ -1286,6 +1294,8 @@ def layout_contracts():
     def df_inv(lc):
         x0 = blob_local(lc, lc.entry).t
         fo = top(lc, "folder").t
+        if lc.extra.get("phase") in ("init", "assume"):
+            lc.st.assume(chain_def(fo, x0, lc.i))
         return z3.And(blob_local(lc).t == CHAIN(fo, x0, lc.i), NCOD(fo) >= 0)
 
     out.append(FnContract(
@@ -1323,6 +1333,8 @@ def layout_contracts():
         dec = top(lc, "decompressed").t
         base = top(lc, "base_path").t
         i = lc.i
+        if lc.extra.get("phase") in ("init", "assume"):
+            lc.st.assume(off_def(k, i))
         conj = [ops.int_term(offset_local(lc)) == OFF(k, i), OFF(k, i) >= 0]
         if lc.extra.get("phase") == "preserve":
             # the iteration that just ended handled entry i-1 of the folder: a directory entry writes nothing,
@@ -1485,12 +1497,9 @@ def keep7(a):
     return z3.And(z3.Not(ISDIR(e)), z3.Not(SKIP(FNAME(e), BASENAME(FNAME(e)))), z3.Not(USIZE(e) > MAXMEM))
 
 
-ZKEPT = z3.RecFunction("zip_kept_before", ZipFileS, I, I)        # number of selected members among infolist()[:i]
-_z = z3.Const("z!def", ZipFileS)
-z3.RecAddDefinition(ZKEPT, [_z, _i], z3.If(_i <= 0, 0, ZKEPT(_z, _i - 1) + z3.If(zkeep(_z, _i - 1), 1, 0)))
+ZKEPT = z3.Function("zip_kept_before", ZipFileS, I, I)           # number of selected members among infolist()[:i] (used opaquely)
 ZSEL = z3.Function("zip_selected_index", ZipFileS, I, I)
-KEPT7 = z3.RecFunction("szf_kept_before", I, I)
-z3.RecAddDefinition(KEPT7, [_i], z3.If(_i <= 0, 0, KEPT7(_i - 1) + z3.If(keep7(_i - 1), 1, 0)))
+KEPT7 = z3.Function("szf_kept_before", I, I)                      # number of selected members among list()[:i] (used opaquely)
 SEL7 = z3.Function("szf_selected_index", I, I)
 
 
@@ -2060,10 +2069,18 @@ def STREAM(i):
     return z3.Not(ES(i))
 
 
-RANK = z3.RecFunction("streams_before_file", I, I)           # number of stream-bearing files among files [0, i)
-z3.RecAddDefinition(RANK, [_i], z3.If(_i <= 0, 0, RANK(_i - 1) + z3.If(STREAM(_i - 1), 1, 0)))
-CUM = z3.RecFunction("streams_before_folder", I, I)          # sum of num_streams of folders [0, k)
-z3.RecAddDefinition(CUM, [_k], z3.If(_k <= 0, 0, CUM(_k - 1) + NSK(_k - 1)))
+# primitive-recursive spec functions, uninterpreted + defining equations instantiated where needed (see NUMPOS: automatic
+# unfolding of RecFunctions over symbolic counts timed out under load)
+RANK = z3.Function("streams_before_file", I, I)              # number of stream-bearing files among files [0, i)
+CUM = z3.Function("streams_before_folder", I, I)             # sum of num_streams of folders [0, k)
+
+
+def rank_def(i):
+    return z3.And(RANK(z3.IntVal(0)) == 0, z3.Implies(i >= 0, RANK(i + 1) == RANK(i) + z3.If(STREAM(i), 1, 0)))
+
+
+def cum_def(k):
+    return z3.And(CUM(z3.IntVal(0)) == 0, z3.Implies(k >= 0, CUM(k + 1) == CUM(k) + NSK(k)))
 
 
 class VHandle(VExt):
@@ -2162,6 +2179,8 @@ def build_contracts(reg):
 
     def files_inv(lc):
         i = lc.i
+        if lc.extra.get("phase") in ("init", "assume"):
+            lc.st.assume(rank_def(i))                    # definition of RANK at 0 and at this index
         conj = [size_index_local(lc) == RANK(i), RANK(i) >= 0]
         if lc.extra.get("phase") == "assume":
             lc.st.assume(rank_mono_at(i + 1, NFL))      # lemma rank-monotone (induction, lemmas()), instantiated at this index
@@ -2220,6 +2239,8 @@ def build_contracts(reg):
         fidx = next(v for k, v in ints.items() if k not in zeroed)
         k, j = ops.int_term(fidx), ops.int_term(fif)
         r = RANK(i)
+        if lc.extra.get("phase") in ("init", "assume"):
+            lc.st.assume(z3.And(rank_def(i), cum_def(k)))       # definitions of RANK / CUM at 0, at this file and at the current folder
         conj = [0 <= k, k <= MF,
                 z3.Implies(k < MF, z3.And(CUM(k) + j == r, 0 <= j, j < NSK(k))),
                 z3.Implies(k == MF, r >= CUM(MF))]
@@ -2978,7 +2999,8 @@ def _missing_locked_as_unknown(c, rep):
     recognised, a clause attached to a statement that disappeared -- is neither proved nor refuted: `unknown`"""
     import json
     import os
-    if rep.error or rep.out_of_subset or getattr(c, "bounded", ""):
+    import sys
+    if rep.error or rep.out_of_subset or getattr(c, "bounded", "") or "--update-lock" in sys.argv:
         return
     try:
         lock = json.load(open(os.path.join(os.path.dirname(os.path.dirname(os.path.abspath(__file__))), "obligations.lock.json"))).get("C10", {})
@@ -3025,8 +3047,8 @@ def lemmas():
                     z3.And(NUMV(s, z3.IntVal(0)) == bv(v, 64), NUML(s, z3.IntVal(0)) == n, z3.BoolVal(number_python(data) == (v, n)))))
     # induction schemas (the induction variable b, the other variable a arbitrary but fixed)
     a, b = z3.Int("a!lemma"), z3.Int("b!lemma")
-    out.append(("C10/spec::7z-layout/lemma#rank-monotone.base", [], rank_mono_at(a, z3.IntVal(0))))
-    out.append(("C10/spec::7z-layout/lemma#rank-monotone.step", [b >= 0, rank_mono_at(a, b)], rank_mono_at(a, b + 1)))
+    out.append(("C10/spec::7z-layout/lemma#rank-monotone.base", [rank_def(b)], rank_mono_at(a, z3.IntVal(0))))
+    out.append(("C10/spec::7z-layout/lemma#rank-monotone.step", [b >= 0, rank_def(b), rank_mono_at(a, b)], rank_mono_at(a, b + 1)))
     sl, ql, pl, adl = z3.Const("s!lemma", Stream), z3.Int("q!lemma"), z3.Int("p!lemma"), z3.Bool("ad!lemma")
     out.append(("C10/spec::7z-header/lemma#numbers-end-monotone.base", [numpos_def(sl, ql, b)], numpos_mono_at(sl, ql, a, z3.IntVal(0))))
     out.append(("C10/spec::7z-header/lemma#numbers-end-monotone.step", [b >= 0, numpos_def(sl, ql, b), numpos_mono_at(sl, ql, a, b)],
